@@ -29,6 +29,8 @@ func TestReplay(t *testing.T) {
 		key, msg = replayScenario(f.Script, judgeC01Hub)
 	case "TestC09Hub":
 		key, msg = replayScenario(f.Script, judgeC09Hub)
+	case "TestC17Hub":
+		key, msg = replayScenario(f.Script, judgeC17Hub)
 	default:
 		t.Fatalf("no replay handler for %s", f.Test)
 	}
